@@ -286,7 +286,15 @@ def main(rec):
                             body[0] = "vf_force_%s_%d = 1" % (lang, r.randint(0, 10 ** 6))
                             sp_l[lang] = body
                     if sp_l:
-                        e["splicer"] = sp_l
+                        # docs/input.rst: the code of a declaration-level splicer is a list of lines or one text block
+                        # (with or without a final newline, YAML block or quoted scalar)
+                        def form_(body_):
+                            c_ = r.random()
+                            if c_ < 0.4 or any(not x.strip() for x in body_[-1:]):
+                                return list(body_)
+                            rec.count("forced_bodies_given_as_text")
+                            return "\n".join(body_) + ("\n" if c_ < 0.6 else "")
+                        e["splicer"] = {l_: form_(b_) for l_, b_ in sp_l.items()}
                         supplied[("decl", id(e))] = ("decl", sp_l)
                         for lang_, b_ in sp_l.items():
                             forced_decls[b_[0]] = {"decl": e["decl"], "options": e.get("options"), "lib_options": {k: v for k, v in (dd.get("options") or {}).items() if k.startswith("wrap_")}, "language": dd.get("language")}
